@@ -232,10 +232,10 @@ class Extractor:
         rn = re.search(r"->\s*\(\s*(\w+)\s*:", txt[:m.start()])
         return (rn.group(1) if rn else None), txt[m.start():].rstrip() + "\n"
 
-    def do_const(self, args):
+    def do_const(self, args, alias=False):
         src, modpath, name = args[:3]
         s = self.source(src)
-        a, b = s.find_const(self.scope(s, modpath), name)
+        a, b = (s.find_alias if alias else s.find_const)(self.scope(s, modpath), name)
         txt = s.text[a:b]
         if not txt.startswith("pub"):
             txt = "pub " + txt
@@ -413,7 +413,12 @@ class Extractor:
             if cl_:
                 ctext += "    %s\n" % kind + "".join("        %s,\n" % v for v in cl_)
         if contract_block and ctext:
-            raise TemplateError("fn %s: both contract: file and inline clauses" % fname)
+            # shared contract (what callers assume) + extra ensures proved on top of it
+            extra = [v for k, v in contract if k == "ensures"]
+            if len(extra) != len(contract) or "decreases" in contract_block or "ensures" not in contract_block:
+                raise TemplateError("fn %s: only extra ensures may be combined with contract: file" % fname)
+            contract_block = contract_block.rstrip() + "\n" + "".join("        %s,\n" % v for v in extra)
+            ctext = ""
         return "/*@uc:%s*/ " % fname + sig + "\n" + (contract_block or ctext) + body + "\n"
 
     # ------------------------------------------------------------------
@@ -443,6 +448,8 @@ class Extractor:
                 out.append(self.do_type(d.split()[1:]))
             elif d.startswith("const "):
                 out.append(self.do_const(d.split()[1:]))
+            elif d.startswith("alias "):
+                out.append(self.do_const(d.split()[1:], alias=True))
             elif d.startswith("fn "):
                 header = d[3:]
                 opts = []
